@@ -42,6 +42,9 @@ func runC20(p *Prog, r *Report) {
 	if want("C20.2") {
 		ruleArgsNotRetained(p, r, "C20.2")
 	}
+	if want("C20.4") {
+		ruleBufferPoolOwnership(p, r, "C20.4")
+	}
 	if want("C20.3") {
 		r.Begin("C20.3", "E-FLOW", "iterator exposure and arena discipline: every store to dbIter.key / dbIter.value is nil, a make, or an append onto the field's own [:0] re-slice (a private buffer that stays intact until the iterator moves); memdb.Put / Transaction.put / Batch.appendRec copy the caller's bytes into their own storage; the memdb arena is append-only", 8)
 		for _, name := range []string{"(*dbIter).next", "(*dbIter).prev", "(*dbIter).setErr", "(*dbIter).Release", "(*DB).newIterator"} {
